@@ -69,6 +69,34 @@ Theorem C07_anchors_become_outlinks :
 Proof. exact anchors_become_outlinks_lemma. Qed.
 Print Assumptions C07_anchors_become_outlinks.
 
+(* Dispatch order of extractOutlinks (IsS3 is asked before IsHTML): the bucket-listing decoder
+   only gets responses whose Content-Type contains "xml" and is not application/xhtml+xml; for
+   every other content type the outlinks are those of the HTML extractor WHATEVER the Server
+   header says - so, with the previous theorem, the anchors of a text/html or XHTML page served
+   by AmazonS3, UploadServer, Windows-Azure-Blob ... are handed on. *)
+Theorem C07_outlinks_dispatch :
+  forall (onclick_url : bytes -> option bytes) (resolve_url : bytes -> bytes -> option bytes)
+         (dc_match : bytes -> bool) (page_links s3_out : list bytes)
+         (server ctype : bytes) (c : cfg) (s : pstate) (page : bytes) (dom : list node),
+  containsb (bs "xml") ctype = false \/ is_xhtml ctype = true ->
+  post_outlinks_resp onclick_url resolve_url true dc_match page_links s3_out server ctype c s page dom
+  = post_outlinks onclick_url resolve_url true dc_match page_links c s page dom.
+Proof. exact outlinks_dispatch_lemma. Qed.
+Print Assumptions C07_outlinks_dispatch.
+
+(* IsS3 as found (before the repair C07-s3-xhtml) claimed an XHTML page served by an S3-like
+   store: the first list is what the code as found handed on, the second what it hands on now. *)
+Theorem C07_s3_dispatch_as_found_refuted :
+  exists (c : cfg) (s : pstate) (dom : list node) (e : node) (u : bytes),
+    In e (all_elems dom) /\ anchor c e u
+    /\ post_stops_fixed c s = false /\ (p_hops s < c_maxhops c)%Z
+    /\ post_outlinks_resp_orig (fun _ => None) (fun _ x => Some x) true (fun _ => false) [] []
+         (bs "AmazonS3") (bs "application/xhtml+xml") c s (bs "https://site.example.com/p.html") dom = []
+    /\ post_outlinks_resp (fun _ => None) (fun _ x => Some x) true (fun _ => false) [] []
+         (bs "AmazonS3") (bs "application/xhtml+xml") c s (bs "https://site.example.com/p.html") dom = [u].
+Proof. exact s3_xhtml_orig_refuted. Qed.
+Print Assumptions C07_s3_dispatch_as_found_refuted.
+
 (* Composition with the postprocessor and the next pass: on a page without <base>, every
    planted simple reference that is not the page itself becomes a child whose normalised URL is
    the RFC 3986 resolution against the page URL - unless asset capture is off or the item is
